@@ -9,6 +9,11 @@ require (
 	pgregory.net/rapid v1.3.0
 )
 
-require github.com/x448/float16 v0.8.4 // indirect
+require (
+	github.com/x448/float16 v0.8.4 // indirect
+	go.arcalot.io/log/v2 v2.2.0 // indirect
+	golang.org/x/sys v0.30.0 // indirect
+	golang.org/x/term v0.29.0 // indirect
+)
 
 replace go.flow.arcalot.io/pluginsdk => /repo
